@@ -1792,11 +1792,15 @@ func (d *db) FindTruncationPoint(ctx context.Context, until time.Time) (*schema.
 		}
 
 		if ctx.Err() != nil {
-			return nil, err
+			return nil, ctx.Err()
 		}
 
 		hdr, err = d.st.ReadTxHeader(hdr.ID-1, false, false)
 	}
+	if err != nil {
+		return nil, err
+	}
+
 	return schema.TxHeaderToProto(hdr), nil
 }
 
